@@ -413,6 +413,19 @@ DoBlockExit(e) ==
   IF G("C11:requester-unblocked-before-gc-end", tr.resumes > Get(tr.blockAt, e.m, -1) \/ tr.lenient)
   THEN Same /\ tr' = tr ELSE FailStep
 
+\* C13, "objects it traced survive with updated addresses": after a collection every entry of the
+\* VM's weak table whose key survived refers, through its key and value references, to the objects
+\* it was created with, and where a root still refers to the key object the table holds the same
+\* (current) address as that root.
+DoWeakTable(e) ==
+  IF tr.failed THEN Skip
+  ELSE IF G("C13:weak-table-entry-not-updated",
+            \A i \in DOMAIN e.rows :
+               LET r == e.rows[i] IN
+               /\ r.kid = r.ekid /\ r.vid = r.evid
+               /\ (r.root # <<0, 0>> => r.root = r.k))
+       THEN Skip ELSE FailStep
+
 \* ---- C13: VM weak-reference rounds -------------------------------------------------------------
 DoWeakEnter(e) ==
   IF tr.lenient THEN Skip
@@ -512,6 +525,7 @@ Step(e) ==
     [] e.ev = "ProcessWeakRefsEnter" -> DoWeakEnter(e)
     [] e.ev = "ProcessWeakRefsExit"  -> DoWeakExit(e)
     [] e.ev = "ForwardWeakRefs" -> DoForwardWeak(e)
+    [] e.ev = "WeakTable"       -> DoWeakTable(e)
     [] e.ev = "PrepareSurrender" -> DoPrepareSurrender(e)
     [] e.ev = "Surrender"       -> DoSurrender(e)
     [] e.ev = "AllExited"       -> DoAllExited(e)
